@@ -20,6 +20,10 @@ pub struct MemCase {
     /// stream length (measured at 10^2, 10^3, ... and at n)
     pub n: usize,
     pub clear_at: usize,
+    /// 0: element by element; otherwise the stream is handed over in chunks of this size (through
+    /// `Extend` where the structure has it)
+    #[serde(default)]
+    pub chunk: usize,
 }
 
 pub struct S6;
@@ -66,7 +70,7 @@ fn gen_mem_kind(g: &mut Sm, which: u64) -> LKind {
         }
         3 => LKind::Cms { w: *g.pick(&[8usize, 16, 100, 1000, 4096]), d: g.range(1, 8) as usize, ctr: g.below(5) as u8 + if g.chance(1, 2) { 0 } else { 0 } },
         4 => LKind::Hll { b: g.range(4, 18) as usize },
-        5 => LKind::Digest { scale: g.below(4) as u8, delta: *g.pick(&[1.5, 5.0, 20.0, 100.0, 500.0]), backlog: *g.pick(&[0usize, 1, 10, 100, 1000]) },
+        5 => LKind::Digest { scale: g.below(4) as u8, delta: *g.pick(&[1.5, 5.0, 20.0, 100.0, 500.0]), backlog: *g.pick(&[0usize, 1, 10, 100, 1000]), wscale: if g.chance(1, 5) { *g.pick(&[1e-320, 1e-310, 1e300, 1e-200]) } else { 1.0 } },
         6 => LKind::Reservoir { k: *g.pick(&[1usize, 2, 10, 100, 1000]) },
         7 => LKind::Lossy { width: *g.pick(&[1usize, 2, 10, 100, 1000]) },
         _ => LKind::Heap { k: *g.pick(&[1usize, 3, 10, 100]), w: *g.pick(&[1usize, 16, 256]), d: g.range(1, 4) as usize },
@@ -98,7 +102,8 @@ impl Scenario for S6 {
         };
         let alphabet = *g.pick(&[1u64, 10, 1000, 1_000_000, u64::MAX]);
         let clear_at = if g.chance(1, 3) { g.range(1, n as u64) as usize } else { 0 };
-        MemCase { kind, hasher: SimHasher::new(mode, g.u64()), rng_seed: g.u64(), stream_seed: g.u64(), alphabet, n, clear_at }
+        let chunk = if g.chance(1, 3) { *g.pick(&[1000usize, 10_000, 1_000_000]) } else { 0 };
+        MemCase { kind, hasher: SimHasher::new(mode, g.u64()), rng_seed: g.u64(), stream_seed: g.u64(), alphabet, n, clear_at, chunk }
     }
 
     fn execute(case: &MemCase, prop: &'static str) -> Outcome {
@@ -127,6 +132,7 @@ impl Scenario for S6 {
             }
             stats.sig((alloc::live() as u64).min(1 << 30) >> 6);
             let mut next_mark = 100usize;
+            let mut pending: Vec<(u64, u64)> = Vec::new();
             let mut failed = 0u64;
             let mut since_clear = 0usize;
             for i in 0..case.n {
@@ -141,8 +147,24 @@ impl Scenario for S6 {
                 }
                 let a = if case.alphabet == u64::MAX { g.u64() } else { g.below(case.alphabet) };
                 let b = g.below(64);
-                let (res, ok) = alloc::tracked(|| s.apply(a, b));
-                since_clear += 1;
+                if case.chunk > 0 {
+                    // hand the elements over in chunks that end at the measurement points
+                    pending.push((a, b));
+                    since_clear += 1;
+                    let flush = pending.len() >= case.chunk || i + 1 == next_mark || i + 1 == case.n || (case.clear_at == i + 1);
+                    if flush {
+                        alloc::tracked(|| s.apply_chunk(&pending));
+                        pending.clear();
+                        stats.probe("chunk_fed");
+                    }
+                    if !flush {
+                        continue;
+                    }
+                }
+                let (res, ok) = if case.chunk > 0 { (0, true) } else { alloc::tracked(|| s.apply(a, b)) };
+                if case.chunk == 0 {
+                    since_clear += 1;
+                }
                 if !ok && res == 2 {
                     failed += 1;
                     if failed == 1 || failed % 1000 == 0 {
